@@ -29,12 +29,29 @@ let enc (s : string) : string =
 let chars_of_string (s : string) : char list = List.init (String.length s) (String.get s)
 let string_of_chars (l : char list) : string = String.concat "" (List.map (String.make 1) l)
 
+(* numerals arriving from the harness are canonical already: no Qred while parsing (gcd on Coq positives is slow) *)
+let q_raw (s : string) : q =
+  if s = "inf" then !sentinel
+  else if s = "-inf" then qopp !sentinel
+  else
+    match String.index_opt s '/' with
+    | None -> { qnum = coqz_of_z (BZ.of_string s); qden = XH }
+    | Some i ->
+      let n = BZ.of_string (String.sub s 0 i) and d = BZ.of_string (String.sub s (i+1) (String.length s - i - 1)) in
+      { qnum = coqz_of_z n; qden = pos_of_z d }
+(* printing without Qred: reduce with zarith (only used to show a value, never to decide) *)
+let show_q (x : q) : string =
+  let n = z_of_coqz x.qnum and d = z_of_pos x.qden in
+  let g = BZ.gcd n d in
+  let n = BZ.div n g and d = BZ.div d g in
+  if BZ.equal d BZ.one then BZ.to_string n else BZ.to_string n ^ "/" ^ BZ.to_string d
+
 let show_nres (r, n) =
   let n = int_of_nat n in
   match r with
   | NFault DivZero -> Printf.sprintf "%d FAULT:DivZero" n
   | NFault IntOverflow -> Printf.sprintf "%d FAULT:IntOverflow" n
-  | Val q -> if n = 0 then "0 -" else Printf.sprintf "%d %s" n (string_of_q q)
+  | Val q -> if n = 0 then "0 -" else Printf.sprintf "%d %s" n (show_q q)
 
 let n_of_int (i : int) : n = if i = 0 then N0 else Npos (pos_of_z (BZ.of_int i))
 let sense_of s = match s with "L" -> SL | "G" -> SG | "E" -> SE | "R" -> SR | _ -> failwith "bad sense"
@@ -46,21 +63,21 @@ let read_nlp ic : nlp =
     let nc = int_of_string nc and nr = int_of_string nr in
     let cols = List.init nc (fun _ -> match next_tokens ic with
       | Some [ "NC"; nm; o; l; u; it ] ->
-        { nc_name = n_of_int (int_of_string nm); nc_obj = q_of_string o; nc_lo = q_of_string l; nc_up = q_of_string u; nc_int = (it = "1") }
+        { nc_name = n_of_int (int_of_string nm); nc_obj = q_raw o; nc_lo = q_raw l; nc_up = q_raw u; nc_int = (it = "1") }
       | _ -> failwith "NC line expected") in
     let rows = List.init nr (fun _ -> match next_tokens ic with
       | Some ("NR" :: nm :: s :: rhs :: rg :: _k :: rest) ->
         let rec ents = function
-          | i :: v :: r -> (n_of_int (int_of_string i), q_of_string v) :: ents r
+          | i :: v :: r -> (n_of_int (int_of_string i), q_raw v) :: ents r
           | [] -> [] | _ -> failwith "bad NR line" in
-        { nr_name = n_of_int (int_of_string nm); nr_sense = sense_of s; nr_rhs = q_of_string rhs; nr_range = q_of_string rg; nr_ent = ents rest }
+        { nr_name = n_of_int (int_of_string nm); nr_sense = sense_of s; nr_rhs = q_raw rhs; nr_range = q_raw rg; nr_ent = ents rest }
       | _ -> failwith "NR line expected") in
     { n_max = (mx = "1"); n_cols = cols; n_rows = rows }
   | _ -> failwith "NLP header expected"
 
 let show_bstmt b = match b with
-  | BFix v -> "FIX " ^ string_of_q v | BFreeS -> "FREE" | BLo v -> "LO " ^ string_of_q v
-  | BUp v -> "UP " ^ string_of_q v | BLoUp (l, u) -> "LOUP " ^ string_of_q l ^ " " ^ string_of_q u
+  | BFix v -> "FIX " ^ show_q v | BFreeS -> "FREE" | BLo v -> "LO " ^ show_q v
+  | BUp v -> "UP " ^ show_q v | BLoUp (l, u) -> "LOUP " ^ show_q l ^ " " ^ show_q u
 
 let () =
   let ic = stdin in
@@ -75,9 +92,9 @@ let () =
          | "getval", [ s ] ->
            let (r, n) = get_value (chars_of_string (dec s)) in
            (match r with
-            | Val q -> Printf.printf "A %s %d %s\n" id (int_of_nat n) (string_of_q q)
+            | Val q -> Printf.printf "A %s %d %s\n" id (int_of_nat n) (show_q q)
             | _ -> Printf.printf "A %s %s\n" id (show_nres (r, n)))
-         | "print", [ q ] -> Printf.printf "A %s %s\n" id (enc (string_of_chars (print_num (q_of_string q))))
+         | "print", [ q ] -> Printf.printf "A %s %s\n" id (enc (string_of_chars (print_num (q_raw q))))
          | "equiv", [] ->
            let p = read_nlp ic in let p' = read_nlp ic in
            Printf.printf "A %s %s\n" id (string_of_bool (equiv_by_name p p'))
@@ -85,10 +102,10 @@ let () =
            let p = read_nlp ic in
            Printf.printf "A %s %s\n" id (String.concat "" (List.map (fun r -> if row_empty r then "1" else "0") p.n_rows))
          | "bounds", [ lo; up; it ] ->
-           let lo = q_of_string lo and up = q_of_string up and it = (it = "1") in
+           let lo = q_raw lo and up = q_raw up and it = (it = "1") in
            let e = encode_bounds !sentinel lo up it in
            let (l', u') = decode_bounds !sentinel e it in
-           Printf.printf "A %s %s | %s %s\n" id (if e = [] then "NONE" else String.concat " ; " (List.map show_bstmt e)) (string_of_q l') (string_of_q u')
+           Printf.printf "A %s %s | %s %s\n" id (if e = [] then "NONE" else String.concat " ; " (List.map show_bstmt e)) (show_q l') (show_q u')
          | _ -> Printf.printf "A %s UNKNOWN-QUERY\n" id)
       with Failure m -> Printf.printf "A %s PARSE-ERROR %s\n" id m);
       flush stdout; loop ()
